@@ -43,14 +43,14 @@ func genC14(c *h.Ctx) {
 		for _, it := range items {
 			f := strings.Split(it, "/")
 			switch f[0] {
-			case "entry", "own", "bind":
+			case "entry", "own", "bind", "objkind", "kind":
 				if len(f) == 3 {
 					c.Add(fmt.Sprintf("%s %s %s %s", f[0], cfg, f[1], f[2]), f[0], "cfg:"+cfg)
 					if f[0] == "entry" {
 						listed[f[1]+" "+f[2]] = true
 					}
 				}
-			case "forin", "link":
+			case "forin", "link", "beh":
 				if len(f) == 2 {
 					c.Add(fmt.Sprintf("%s %s %s", f[0], cfg, f[1]), f[0], "cfg:"+cfg)
 				}
@@ -85,6 +85,9 @@ func implC14(line string) string {
 	f := strings.Fields(line)
 	if len(f) < 3 {
 		return "bad-op"
+	}
+	if f[0] == "kind" {
+		return implKind(f)
 	}
 	if f[0] == "dynfn" {
 		return implDynFn(f)
@@ -138,6 +141,10 @@ func implC14(line string) string {
 		return get(d.ForIn, f[2])
 	case "link":
 		return get(d.Link, f[2])
+	case "beh":
+		return get(d.Beh, f[2])
+	case "objkind":
+		return get(d.Static, "kind "+f[2]+" "+f[3])
 	case "bind":
 		if f[3] == "@self" {
 			return get(d.Static, "self "+f[2])
